@@ -345,6 +345,28 @@ func decide(c *vf.Case, s *scenario, mon *monitor, w *recWriter) {
 		// --- NTP
 		nowClk := s.clockNs(mon.bubbleStartUnixNs, o.v)
 		wantNTP := ntpExact(nowClk)
+		switch f := nowClk % 1000000000; {
+		case f >= 999999000:
+			c.Add("reports_in_last_microsecond_of_a_second", 1)
+			if f >= 999999600 {
+				c.Add("reports_in_last_400ns_of_a_second", 1)
+			}
+		case f < 1000:
+			c.Add("reports_in_first_microsecond_of_a_second", 1)
+		case f%125000000 < 1000 || f%125000000 > 125000000-1000:
+			c.Add("reports_within_1us_of_an_eighth_of_a_second", 1)
+		default:
+			k := (f*65536 + 500000000) / 1000000000
+			if d := f - (k*1000000000+32768)/65536; d >= -300 && d <= 300 {
+				c.Add("reports_within_300ns_of_a_multiple_of_1/65536s", 1)
+			}
+		}
+		switch sec := nowClk / 1000000000; {
+		case sec < 94608000:
+			c.Add("reports_at_clock_years_1970_to_1972", 1)
+		case sec >= 2051222400:
+			c.Add("reports_at_clock_years_2035_2036", 1)
+		}
 		if d := int64(o.sr.NTPTime - wantNTP); d < -ntpTol || d > ntpTol {
 			sig, why := "ntp/not-the-report-instant", ""
 			if s.injected {
